@@ -342,6 +342,40 @@ def c10() -> List[M]:
     ]
 
 
+def c14() -> List[M]:
+    return [
+        M("C14", "et-running-window-shrunk", ET, "self._read_command(0x891c, 0x007d)", "self._read_command(0x891c, 0x0070)", "C14.R1"),
+        M("C14", "et-basic-meter-window-one-short", ET, "self._read_command(0x8ca0, 0x2d)", "self._read_command(0x8ca0, 0x2c)", "C14.R1"),
+        M("C14", "et-basic-meter-filter-too-wide", ET, "        return s.offset < 36045", "        return s.offset < 36050", "C14.R1"),
+        M("C14", "dt-meter-window-one-short", DT, "self._read_command(0x75f3, 0xF)", "self._read_command(0x75f3, 0xE)", "C14.R1"),
+        M("C14", "dt-last-sensor-widened", DT, 'Integer("rssi", 30172, "RSSI")', 'Long("rssi", 30172, "RSSI")', "C14.R1"),
+        M("C14", "et-ext2-fallback-reads-basic-block", ET, "                    response = await self._read_from_socket(self._READ_METER_DATA_EXTENDED)\n                    data.update(\n                        self._map_response(response, self._sensors_meter))\n                else:\n                    raise ex\n        elif",
+          "                    response = await self._read_from_socket(self._READ_METER_DATA)\n                    data.update(\n                        self._map_response(response, self._sensors_meter))\n                else:\n                    raise ex\n        elif", "C14.R1"),
+        M("C14", "et-battery2-window-short", ET, "self._read_command(0x9858, 0x0016)", "self._read_command(0x9858, 0x0015)", "C14.R1"),
+        M("C14", "et-getter-reads-outside-window", ET, "                   read_bytes2_signed(data, 35140),\n                   \"House Consumption\"", "                   read_bytes2_signed(data, 36008),\n                   \"House Consumption\"", "C14.R1"),
+        M("C14", "et-modbus-n-reads-four-bytes", ET, "            response = await self._read_from_socket(self._read_command(int(sensor_id[7:]), 1))\n            return int.from_bytes(response.read(2), byteorder=\"big\", signed=True)",
+          "            response = await self._read_from_socket(self._read_command(int(sensor_id[7:]), 1))\n            return int.from_bytes(response.read(4), byteorder=\"big\", signed=True)", "C14.R2"),
+        M("C14", "benign-basic-meter-window-wider", ET, "self._read_command(0x8ca0, 0x2d)", "self._read_command(0x8ca0, 0x2e)", "clean"),
+    ]
+
+
+def c15() -> List[M]:
+    return [
+        M("C15", "et-sensors-forgets-battery2", ET, "        if self._has_battery2:\n            result = result + self._sensors_battery2\n", "", "C15.R1"),
+        M("C15", "et-mppt-refusal-not-recorded", ET, "                    logger.info(\"MPPT values not supported, disabling further attempts.\")\n                    self._has_mppt = False", "                    logger.info(\"MPPT values not supported, disabling further attempts.\")", "C15.R1"),
+        M("C15", "et-battery-refusal-not-recorded", ET, "                    logger.info(\"Battery values not supported, disabling further attempts.\")\n                    self._has_battery = False", "                    logger.info(\"Battery values not supported, disabling further attempts.\")", "C15.R1"),
+        M("C15", "et-ext2-refusal-not-recorded", ET, "                    self._has_meter_extended2 = False\n", "", "C15.R2"),
+        M("C15", "et-sensors-always-lists-mppt", ET, "        if self._has_mppt:\n            result = result + self._sensors_mppt", "        result = result + self._sensors_mppt", "C15.R1"),
+        M("C15", "dt-meter-refusal-not-recorded", DT, "                logger.info(\"Meter values not supported, disabling further attempts.\")\n                self._has_meter = False", "                logger.info(\"Meter values not supported, disabling further attempts.\")", "C15.R1"),
+        M("C15", "dt-sensors-ignores-meter-flag", DT, "        if self._has_meter:\n            result = result + self._sensors_meter\n        return result", "        result = result + self._sensors_meter\n        return result", "C15.R1"),
+        M("C15", "et-745-forgets-mppt-flag", ET, "            self._has_mppt = True\n            self._has_meter_extended = True", "            self._has_meter_extended = True", "clean"),
+        M("C15", "es-sensors-other-table", ES, "    def sensors(self) -> tuple[Sensor, ...]:\n        return self.__sensors", "    def sensors(self) -> tuple[Sensor, ...]:\n        return self.__sensors[:10]", "C15.R3"),
+        M("C15", "benign-et-ext-refusal-retried-every-call", ET, "                    self._has_meter_extended = False\n", "", "clean"),
+        M("C15", "benign-et-sensors-order", ET, "        if self._has_battery:\n            result = result + self._sensors_battery\n        if self._has_battery2:\n            result = result + self._sensors_battery2\n",
+          "        if self._has_battery2:\n            result = result + self._sensors_battery2\n        if self._has_battery:\n            result = result + self._sensors_battery\n", "clean"),
+    ]
+
+
 def corpus() -> List[M]:
     out: List[M] = []
     for name, fn in sorted(globals().items()):
